@@ -1,8 +1,8 @@
 (* C17 — Density-estimation caching and size-dependent code paths are transparent.
    Property theorems only + non-vacuity.  Model: Model/DECache.v (matrix-entry cache old_R) on top of Model/Gram.v. *)
 From Coq Require Import ZArith List QArith Qcanon Bool Lia.
-From SG Require Import Base.QcUtil Model.Gram Model.DECache
-  Proofs.GramHat Proofs.GramEntries Proofs.GramPD Proofs.GramNorm Proofs.DECacheP.
+From SG Require Import Base.QcUtil Model.Gram Model.DECache Model.DEReuse
+  Proofs.GramHat Proofs.GramEntries Proofs.GramPD Proofs.GramNorm Proofs.DECacheP Proofs.DEPaths Proofs.DEReuseP Proofs.DEInterpP Proofs.DEUniform Proofs.DEUniformInterp.
 Import ListNotations.
 Open Scope Qc_scope.
 
@@ -37,9 +37,79 @@ Theorem C17_hat_variants_agree : forall t x, proper t ->
   hat_cv t x = hat_scalar t x /\ (h_lo t <= x -> x <= h_hi t -> hat_vec t x = hat_scalar t x).
 Proof. intros t x H. split; [exact (hat_cv_eq_scalar t x H) | exact (hat_vec_eq_scalar_in_support t x H)]. Qed.
 
-(* NOT proved (checked by the correspondence of every run): equality of the large-grid right-hand-side loop
-   (rhs_large / rhs_uniform_large) with the small-grid formula (rhs / rhs_uniform); transparency of the reuse of old
-   right-hand sides (find_closest_old_B, data bins) - the latter is REFUTED on the code, see findings/C17.json. *)
+(* ---- wave 2 ---------------------------------------------------------------------------------------------------------- *)
+
+(* SIZE-DEPENDENT CODE PATHS of the right-hand side (calculate_B_dimension_wise): the large-grid loop (N >= 200: per sample
+   only the hats at the two closest stripe coordinates, take_closest / bisect_left, scalar hat) computes the small-grid
+   formula (all hats times all samples, completely vectorised hat) - on EVERY tensor grid over strictly increasing stripes
+   of [0,1] and EVERY data set of the dimension of the grid (no size restriction: both paths can be compared on any grid) *)
+Theorem C17_rhs_large_path_equals_small_path : forall stripes data signs,
+  Forall good_stripe stripes -> Forall (fun x => length x = length stripes) data ->
+  rhs_large stripes data signs = rhs (grid_hats stripes) data signs.
+Proof. exact rhs_large_eq_rhs. Qed.
+Print Assumptions C17_rhs_large_path_equals_small_path.
+
+(* RE-USE OF OLD RIGHT-HAND SIDES (find_closest_old_B, copy of the entries whose point and support match, recomputation
+   of the others through the data bins of find_data_in_domain, hand-over new_B -> old_B in post_processing):
+   for EVERY history of component-grid evaluations and post_processing calls on one object - any grids (growing,
+   shrinking, points replaced, repeated), any keys, any threshold, any class labels, any index lists that contain every
+   sample index - the right-hand sides computed with re-use equal those computed without, and both are the signed sample
+   means of the hats (spec_events = rhs of C16, cf. C16_rhs_is_sample_mean) *)
+Theorem C17_rhs_reuse_transparent_for_every_history : forall data signs perms thr evs,
+  perms_complete data perms -> good_events data evs ->
+  fst (run_reuse thr data signs perms (bstate0 (length perms)) evs) = run_plain thr data signs evs /\
+  run_plain thr data signs evs = spec_events data signs evs.
+Proof. exact reuse_transparent_for_every_history. Qed.
+Print Assumptions C17_rhs_reuse_transparent_for_every_history.
+
+(* verified checker, evaluated on the data bins and the index arrays the implementation holds at the end of every explored
+   history: accepted bins (every sample strictly inside an interval sits inside the stored index range) and complete index
+   lists make every further history transparent, whatever right-hand sides (if correct) are stored *)
+Theorem C17_checked_bins_are_safe : forall data signs perms bs thr evs old,
+  check_bins data perms bs = true -> check_perms data perms = true -> entries_ok data signs old -> good_events data evs ->
+  fst (run_reuse thr data signs perms (mkB old [] bs) evs) = run_plain thr data signs evs.
+Proof. exact checked_bins_are_safe. Qed.
+Print Assumptions C17_checked_bins_are_safe.
+
+(* SIZE-DEPENDENT CODE PATHS of the interpolation (interpolate_points_component_grid): one call of the large-grid path
+   (grid object with >= 200 points: per evaluation point the hats at the two closest stripe coordinates per dimension,
+   their supports looked up in / stored into the per-call dictionary hat_support_cache, the surplus found through the
+   offsets, vectorised hat) returns for every batch of points of the unit cube the values of the small-grid path
+   (all hats, completely vectorised hat) - on EVERY grid and for EVERY surplus vector *)
+Theorem C17_interp_large_path_equals_small_path : forall stripes alphas pts,
+  Forall good_stripe stripes -> Forall (fun x => length x = length stripes /\ in_unit_cube x = true) pts ->
+  interp_large stripes alphas pts = map (interp (grid_hats stripes) alphas) pts.
+Proof. exact interp_large_eq_interp. Qed.
+Print Assumptions C17_interp_large_path_equals_small_path.
+
+(* the support cache is transparent as long as it is consistent with the CURRENT grid (every stored support is the support
+   in the grid that is being interpolated); the fresh per-call dictionary of the code is the case c = [] *)
+Theorem C17_interp_support_cache_transparent : forall stripes alphas pts c,
+  cache_ok stripes c -> Forall good_stripe stripes -> Forall (fun x => length x = length stripes /\ in_unit_cube x = true) pts ->
+  fst (interp_large_from stripes alphas c pts) = map (interp (grid_hats stripes) alphas) pts.
+Proof. exact interp_large_from_consistent_cache. Qed.
+Print Assumptions C17_interp_support_cache_transparent.
+
+(* SIZE-DEPENDENT CODE PATHS of the right-hand side on UNIFORM grids (calculate_B of StandardCombi runs): the large-grid
+   loop (N >= 200: get_hats_in_support = floor / ceil of x / meshsize kept if they index a grid point, unclamped hat product,
+   samples outside the unit cube skipped) computes the small-grid formula (all hats, clamped) - for EVERY level vector and
+   EVERY data set of its dimension (also samples outside the unit cube) *)
+Theorem C17_rhs_uniform_large_path_equals_small_path : forall lv data signs,
+  Forall (fun x => length x = length lv) data -> rhs_uniform_large lv data signs = rhs_uniform lv data signs.
+Proof. exact rhs_uniform_large_eq_rhs_uniform. Qed.
+Print Assumptions C17_rhs_uniform_large_path_equals_small_path.
+
+(* INTERPOLATION ON UNIFORM GRIDS (StandardCombi runs): the small-grid path evaluates the level/index hats
+   max(1 - |2^l x - i|, 0) of the component grid (interp_uniform), the large-grid path works on the coordinate arrays of the
+   grid (interp_large over the uniform stripes); for every level vector with levels >= 1 they agree *)
+Theorem C17_interp_uniform_large_path_equals_small_path : forall lv alphas pts,
+  Forall (fun l => (1 <= l)%Z) lv -> Forall (fun x => length x = length lv /\ in_unit_cube x = true) pts ->
+  interp_large (map uniform_stripe lv) alphas pts = map (interp_uniform lv alphas) pts.
+Proof. exact interp_large_uniform_eq_small. Qed.
+Print Assumptions C17_interp_uniform_large_path_equals_small_path.
+
+(* NOT modelled: the re-use branch of calculate_B (uniform grids); it is unreachable through StandardCombi because only
+   calculate_B_dimension_wise fills new_B (reuse on / off runs of StandardCombi are compared on every run). *)
 
 (* ---- non-vacuity: two different grids sharing cache entries *)
 Definition q (n : Z) (d : positive) : Qc := Q2Qc (n # d).
@@ -57,4 +127,92 @@ Proof.
   - vm_compute. reflexivity.
   - apply cache_transparent_for_every_history.
     repeat constructor; try (unfold Qclt; vm_compute; reflexivity); try (apply Qc_is_canon; reflexivity).
+Qed.
+
+(* ---- non-vacuity of the re-use theorem: a history in which an old right-hand side IS re-used: second grid = first grid plus
+   one point, threshold 2; two of the three entries are copied, one is recomputed through the data bins *)
+Example C17_reuse_nonvacuous :
+  let data := [[q 1 4]; [q 1 2]; [q 3 4]; [q 1 10]] in
+  let perms := [[3; 0; 1; 2]%nat] in
+  let g1 := [[q 0 1; q 1 4; q 1 2; q 1 1]] in
+  let g2 := [[q 0 1; q 1 4; q 1 2; q 3 4; q 1 1]] in
+  let evs := [EGrid [1%Z] g1; EPost; EGrid [2%Z] g2; EPost] in
+  perms_complete data perms /\ good_events data evs /\
+  (exists e, find_closest (oldB (snd (run_reuse 2 data [] perms (bstate0 1) [EGrid [1%Z] g1; EPost]))) g2 = Some e) /\
+  length (nth 0 (bins (snd (run_reuse 2 data [] perms (bstate0 1) evs))) []) = 2%nat /\
+  fst (run_reuse 2 data [] perms (bstate0 1) evs) = run_plain 2 data [] evs.
+Proof.
+  cbv zeta.
+  assert (G : forall s, s = [q 0 1; q 1 4; q 1 2; q 1 1] \/ s = [q 0 1; q 1 4; q 1 2; q 3 4; q 1 1] -> good_stripe s).
+  { intros s [E|E]; subst s; (split; [|split]);
+      repeat split; try (unfold Qclt; vm_compute; reflexivity); try (apply Qc_is_canon; reflexivity). }
+  assert (Hc : perms_complete [[q 1 4]; [q 1 2]; [q 3 4]; [q 1 10]] [[3; 0; 1; 2]%nat]).
+  { intros pm [E|[]] k Hk. subst pm. cbn [length] in Hk.
+    destruct k as [|[|[|[|k]]]]; cbn; try tauto. exfalso. do 4 apply Nat.succ_lt_mono in Hk. inversion Hk. }
+  assert (He : good_events [[q 1 4]; [q 1 2]; [q 3 4]; [q 1 10]]
+                 [EGrid [1%Z] [[q 0 1; q 1 4; q 1 2; q 1 1]]; EPost; EGrid [2%Z] [[q 0 1; q 1 4; q 1 2; q 3 4; q 1 1]]; EPost]).
+  { cbn [good_events]. repeat split; try (repeat constructor; fail); constructor; try constructor; apply G; tauto. }
+  split; [exact Hc|]. split; [exact He|]. split; [|split].
+  - eexists. vm_compute. reflexivity.
+  - vm_compute. reflexivity.
+  - apply (C17_rhs_reuse_transparent_for_every_history _ [] _ 2%nat _ Hc He).
+Qed.
+
+(* ---- non-vacuity of the interpolation theorem (2D grid, one stripe with a single inner point; points on grid lines, on
+   the boundary and in between) and NECESSITY of the consistency hypothesis: a support cache left behind by a coarser grid
+   (what a cache keyed by the level vector does after a refinement) changes the value *)
+Example C17_interp_nonvacuous :
+  let g := [[q 0 1; q 1 4; q 1 2; q 3 4; q 1 1]; [q 0 1; q 1 2; q 1 1]] in
+  let al := [q 1 1; q 2 1; q (-3) 2] in
+  let pts := [[q 3 8; q 1 4]; [q 1 2; q 1 2]; [q 0 1; q 1 1]; [q 7 8; q 3 4]] in
+  Forall good_stripe g /\ Forall (fun x => length x = length g /\ in_unit_cube x = true) pts /\
+  interp_large g al pts = map (interp (grid_hats g) al) pts /\ nth 0 (interp_large g al pts) 0 = q 3 4.
+Proof.
+  cbv zeta. split; [|split; [|split]].
+  - repeat constructor; try (unfold Qclt; vm_compute; reflexivity); try (apply Qc_is_canon; reflexivity).
+  - repeat constructor.
+  - vm_compute. reflexivity.
+  - apply Qc_is_canon. vm_compute. reflexivity.
+Qed.
+
+Example C17_stale_support_cache_not_transparent :
+  let g1 := [[q 0 1; q 1 2; q 1 1]] in
+  let g2 := [[q 0 1; q 1 4; q 1 2; q 1 1]] in
+  let x := [q 3 8] in
+  let c1 := snd (interp_large_from g1 [q 1 1] [] [x]) in                      (* cache after interpolating on the old grid *)
+  cache_ok g1 c1 /\ ~ cache_ok g2 c1 /\
+  fst (interp_large_from g2 [q 0 1; q 1 1] c1 [x]) <> map (interp (grid_hats g2) [q 0 1; q 1 1]) [x].
+Proof.
+  cbv zeta. split; [|split].
+  - intros h sp H. vm_compute in H. destruct H as [H|[]]. injection H as H1 H2. subst. vm_compute. reflexivity.
+  - intro H. specialize (H [q 1 2] [(q 0 1, q 1 1)]). assert (I : In ([q 1 2], [(q 0 1, q 1 1)]) (snd (interp_large_from [[q 0 1; q 1 2; q 1 1]] [q 1 1] [] [[q 3 8]]))).
+    { vm_compute. left. reflexivity. }
+    specialize (H I). vm_compute in H. discriminate.
+  - vm_compute. discriminate.
+Qed.
+
+(* ---- non-vacuity of the uniform statement: level vector (3,2), 21 grid points, samples inside, on grid lines, on the boundary
+   and outside the unit cube; some entry is non-zero *)
+Example C17_uniform_nonvacuous :
+  let data := [[q 1 3; q 1 2]; [q 1 4; q 3 4]; [q 1 1; q 0 1]; [q 5 4; q 1 2]; [q 7 10; q 1 10]] in
+  Forall (fun x => length x = 2%nat) data /\ length (rhs_uniform [3%Z; 2%Z] data []) = 21%nat /\
+  rhs_uniform_large [3%Z; 2%Z] data [] = rhs_uniform [3%Z; 2%Z] data [] /\ nth 5 (rhs_uniform [3%Z; 2%Z] data []) 0 = q 1 5.
+Proof.
+  cbv zeta. split; [repeat constructor|]. split; [vm_compute; reflexivity|]. split; [vm_compute; reflexivity|].
+  apply Qc_is_canon. vm_compute. reflexivity.
+Qed.
+
+Example C17_uniform_interp_nonvacuous :
+  let al := [q 1 1; q 2 1; q 3 1; q (-1) 1; q 0 1; q 1 2; q 5 1; q 1 1; q 1 1] in
+  let pts := [[q 1 3; q 1 2]; [q 1 4; q 3 4]; [q 1 1; q 0 1]; [q 5 8; q 1 8]] in
+  Forall (fun l => (1 <= l)%Z) [2%Z; 2%Z] /\ Forall (fun x => length x = 2%nat /\ in_unit_cube x = true) pts /\
+  interp_large (map uniform_stripe [2%Z; 2%Z]) al pts = map (interp_uniform [2%Z; 2%Z] al) pts /\
+  nth 1 (map (interp_uniform [2%Z; 2%Z] al) pts) 0 = q 3 1.
+Proof.
+  cbv zeta.
+  assert (H1 : Forall (fun l => (1 <= l)%Z) [2%Z; 2%Z]) by (repeat constructor; lia).
+  assert (H2 : Forall (fun x => length x = 2%nat /\ in_unit_cube x = true)
+                 [[q 1 3; q 1 2]; [q 1 4; q 3 4]; [q 1 1; q 0 1]; [q 5 8; q 1 8]]) by (repeat constructor).
+  split; [exact H1|]. split; [exact H2|]. split; [apply C17_interp_uniform_large_path_equals_small_path; assumption|].
+  apply Qc_is_canon. vm_compute. reflexivity.
 Qed.
